@@ -12,8 +12,8 @@ from .c09 import finish
 
 KINDS = {
     'C01': ['flat', 'combo', 'multi', 'nested', 'tworoots', 'payload', 'targs:nested_arg', 'targs:generic', 'combo', 'twokeys'],
-    'C02': ['flat', 'multi', 'nested', 'nested', 'unsized', 'split', 'nestedx', 'tworoots', 'payload', 'arity', 'targs:nested_arg', 'combo', 'combo', 'targs:unsized_where', 'fnnest', 'targs:reflexive_mix', 'targs:repeated_arg', 'twokeys'],
-    'C04': ['overlap', 'overlap', 'flat', 'nested', 'overlap', 'nestedx', 'targs:nested_arg', 'arity', 'tworoots_overlap', 'fnnest', 'shiftoverlap', 'targs:unsized_where_overlap'],
+    'C02': ['flat', 'multi', 'nested', 'nested', 'unsized', 'split', 'nestedx', 'tworoots', 'payload', 'arity', 'targs:nested_arg', 'combo', 'combo', 'targs:unsized_where', 'fnnest', 'targs:reflexive_mix', 'targs:repeated_arg', 'twokeys', 'refmut', 'chain3'],
+    'C04': ['overlap', 'overlap', 'flat', 'nested', 'overlap', 'nestedx', 'targs:nested_arg', 'arity', 'tworoots_overlap', 'fnnest', 'shiftoverlap', 'targs:unsized_where_overlap', 'overlap_repeat'],
 }
 PREFIX = {'C01': ['C01_'], 'C02': ['C02_'], 'C04': ['C04_']}
 
@@ -118,7 +118,7 @@ def run_prop(prop, tier, seed, replay=None, make_cases=None):
             stats['macro_rejected'] += 1
             if prop == 'C04' and witness:
                 nontrivial.add(c.invocation())
-            by_construction = c.kind in ('flat', 'multi', 'payload', 'unsized', 'split', 'arity', 'tworoots', 'ltbound', 'twokeys') or c.kind.startswith('targs:')
+            by_construction = c.kind in ('flat', 'multi', 'payload', 'unsized', 'split', 'arity', 'tworoots', 'ltbound', 'twokeys', 'refmut', 'chain3') or c.kind.startswith('targs:')
             if (prop in ('C15', 'C16') or c.kind == 'combo' or (prop in ('C01', 'C02') and by_construction)) and not witness:
                 # one family per instantiation, pairwise distinguished on a shared key: must be accepted
                 violations.append(dict(case_dump(c), kind='property', request=c.invocation(), errors=o['macro_errors'][:4],
